@@ -407,11 +407,13 @@ class SparseArray:
             missing_counts = counts != n_cols
             data[missing_counts] = method(data[missing_counts], self.fill_value, **kwargs)
         else:
+            # the unstored elements are accumulated in the dtype the reduction itself accumulates in
+            fill_value = np.asarray(self.fill_value).astype(data.dtype)[()]
             data = method(
                 data,
-                reduce_super_ufunc(self.fill_value, n_cols - counts),
+                reduce_super_ufunc(fill_value, n_cols - counts),
             ).astype(data.dtype)
-            result_fill_value = reduce_super_ufunc(self.fill_value, n_cols)
+            result_fill_value = reduce_super_ufunc(fill_value, n_cols)
 
         out = self._reduce_return(data, arr_attrs, result_fill_value)
 
